@@ -425,9 +425,17 @@ func longIntString(r *hx.Rng, L int) []byte {
 
 // intPositions sends one long string into integer positions: typed decoders at top level, nested in
 // slices / arrays / structs with a tail, and Stream.Uint/Bool/uintN scripts.
-func intPositions(rn *runner, r *hx.Rng, L int) {
+func intPositions(rn *runner, r *hx.Rng, L int, light bool) {
 	str := longIntString(r, L)
 	h := hx.Hex(str)
+	if light {
+		// a very long string, a few positions only (the model walks 64 KiB lists: keep quick quick)
+		rn.do("dec u64 " + h)
+		enc, _ := rlp.EncodeToBytes([]interface{}{rlp.RawValue(str), []byte{0x01}})
+		rn.do("dec R2,u64,tail,S,u64 " + hx.Hex(enc))
+		rn.do("stream auto " + hx.Hex(enc) + " l,u64,u64,k,e")
+		return
+	}
 	for _, t := range []string{"u8", "u16", "u32", "u64", "bool", "big", "P,u64"} {
 		rn.do("dec " + t + " " + h)
 	}
@@ -874,14 +882,15 @@ func generate(rn *runner, r *hx.Rng, thorough bool) {
 		if L > 2000 && !thorough {
 			continue
 		}
-		intPositions(rn, r, L)
-		if thorough {
-			intPositions(rn, r, L)
-			intPositions(rn, r, L)
+		intPositions(rn, r, L, false)
+		if thorough && L <= 2000 {
+			intPositions(rn, r, L, false)
+			intPositions(rn, r, L, false)
 		}
 	}
 	if !thorough {
-		intPositions(rn, r, 65537) // one large one also in quick
+		intPositions(rn, r, 65537, true) // a large one also in quick
+		intPositions(rn, r, 65544, true)
 	}
 	// (b') hostile headers at every nesting position
 	nHost := 2500
